@@ -422,6 +422,9 @@ pub struct RefFrame {
     pub emb: Option<String>,
     /// index of the history step that created it
     pub born_at: usize,
+    /// how the frame came about, for failure classification: "", "reuse-of-chunked" (payload-less
+    /// update of a chunked document), "extracted-plan" (non-UTF-8 payload whose extracted text was chunked)
+    pub note: &'static str,
 }
 
 impl RefFrame {
@@ -465,7 +468,7 @@ impl RefModel {
             id, uri: uri.clone(), status: 'a', role: role_c, supersedes, superseded_by: None, ts, kind: kind.clone(),
             track: track.clone(), tags: tags.clone(), labels: labels.clone(), chunk_index: None,
             chunk_count: if n_chunks > 0 { Some(n_chunks as u32) } else { None }, doc: None, n_chunks, content,
-            emb, born_at: step,
+            emb, born_at: step, note: if n_chunks > 0 && std::str::from_utf8(bytes).is_err() { "extracted-plan" } else { "" },
         });
         if let Some(cs) = chunks {
             for (i, c) in cs.iter().enumerate() {
@@ -475,7 +478,7 @@ impl RefModel {
                     supersedes: None, superseded_by: None, ts, kind: kind.clone(), track: track.clone(),
                     tags: tags.clone(), labels: labels.clone(), chunk_index: Some(i as u32),
                     chunk_count: Some(n_chunks as u32), doc: Some(id), n_chunks: 0, content: tok(c.as_bytes()),
-                    emb: chunk_embs.as_ref().and_then(|v| v.get(i).cloned()), born_at: step,
+                    emb: chunk_embs.as_ref().and_then(|v| v.get(i).cloned()), born_at: step, note: "",
                 });
             }
         }
@@ -498,6 +501,7 @@ impl RefModel {
                     u.track.clone().or(old.track.clone()), if u.tags.is_empty() { old.tags.clone() } else { u.tags.clone() },
                     if u.labels.is_empty() { old.labels.clone() } else { u.labels.clone() }, u.role, Some(u.id), &[], &None, emb, None);
                 self.frames[id as usize].content = old.content.clone();
+                if old.n_chunks > 0 { self.frames[id as usize].note = "reuse-of-chunked"; }
             }
         }
         let o = &mut self.frames[u.id as usize];
@@ -654,6 +658,9 @@ impl World {
     fn stored_len(bytes: &[u8], level: i32) -> usize {
         verif_hooks::prepare_canonical_payload(bytes, level).map(|x| x.0).unwrap_or(bytes.len())
     }
+    fn stored_zstd(bytes: &[u8], level: i32) -> bool {
+        verif_hooks::prepare_canonical_payload(bytes, level).map(|x| x.1).unwrap_or(false)
+    }
 
     fn emb_field(&mut self, e: &Option<EmbSpec>) -> String {
         match e {
@@ -670,7 +677,7 @@ impl World {
     fn payload_fields(&mut self, bytes: &[u8], chunks: &Option<Vec<String>>, chunk_embs: &Option<Vec<EmbSpec>>) -> String {
         let plen = Self::stored_len(bytes, self.level());
         match chunks {
-            None => format!("ct={} len={} plen={} chunks=-", tok(bytes), plen, plen),
+            None => format!("ct={} len={} plen={} z={} chunks=-", tok(bytes), plen, plen, Self::stored_zstd(bytes, self.level()) as u8),
             Some(cs) => {
                 let cat_key = tok(cs.concat().as_bytes());
                 let cat_val = format!("cat:{}", cs.iter().map(|c| tok(c.as_bytes())).collect::<Vec<_>>().join("+"));
@@ -685,7 +692,7 @@ impl World {
                     format!("ct=E len=0 plen={} chunks={}", plen, items.join(";"))
                 } else {
                     // plan over extracted text: the parent keeps the original payload
-                    format!("ct={} len={} plen={} chunks={}", tok(bytes), plen, plen, items.join(";"))
+                    format!("ct={} len={} plen={} z=0 chunks={}", tok(bytes), plen, plen, items.join(";"))
                 }
             }
         }
@@ -724,8 +731,9 @@ impl World {
                 if ack.is_ok() { self.reference.put(step_no, p, &bytes, &chunks); }
                 let tr = Self::trace_fields(&before, &after, ack.is_ok(), true);
                 let st = !(p.instant_index && ack.is_ok() && !before.tantivy_dirty && !after.tantivy_dirty && after.dirty);
-                (ack, format!("put {} {} emb={} ii={} st={} {}",
-                    Self::common_fields(Some(p.ts), &p.uri, &p.kind, &p.track, &p.tags, &p.labels, p.role), fields, embf,
+                let cdims = match &p.chunk_embs { Some(v) if !v.is_empty() => v.iter().map(|e| e.dim.to_string()).collect::<Vec<_>>().join(","), _ => "-".into() };
+                (ack, format!("put {} {} emb={} cdims={} ii={} st={} {}",
+                    Self::common_fields(Some(p.ts), &p.uri, &p.kind, &p.track, &p.tags, &p.labels, p.role), fields, embf, cdims,
                     p.instant_index as u8, st as u8, tr))
             }
             Op::Update(u) => {
@@ -875,6 +883,7 @@ impl World {
         };
         let _ = base_before;
         let obs = self.observe();
+        let request = if request.contains(" ws=") { request } else { format!("{request} ws={}", obs.wal_size) };
         Step { op: op.clone(), ack, request, obs }
     }
 
@@ -1036,7 +1045,9 @@ pub fn gen_put(rng: &mut Rng, prof: &GenProfile, gs: &mut GenState) -> PutSpec {
     if rng.chance(30, 100) { p.track = Some(gen_word(rng)); }
     if rng.chance(35, 100) { p.tags = (0..rng.usize(1, 3)).map(|_| gen_word(rng)).collect(); p.tags.dedup(); }
     if rng.chance(25, 100) { p.labels = (0..rng.usize(1, 2)).map(|_| gen_word(rng)).collect(); p.labels.dedup(); }
-    p.role = match rng.below(100) { 0..=2 => 2, 3..=4 => 1, _ => 0 };
+    // roles: Document, and ExtractedImage for binary payloads (a caller-chosen DocumentChunk role without a
+    // parent is outside the histories the family quantifies over)
+    p.role = if matches!(p.payload.kind, PayloadKind::Bin | PayloadKind::Rand | PayloadKind::Zero) && rng.chance(8, 100) { 2 } else { 0 };
     if rng.chance(prof.emb_percent, 100) {
         let dim = if rng.chance(prof.wrong_dim_percent, 100) { gs.dim % 8 + 1 } else { gs.dim };
         p.emb = Some(EmbSpec { dim, seed: rng.u64() });
@@ -1109,7 +1120,9 @@ pub fn gen_op(rng: &mut Rng, prof: &GenProfile, gs: &mut GenState, obs: &Obs) ->
             }
         }
         8 => Op::CommitSkip,
-        9 => Op::Finalize,
+        // finalize_indexes while inserts are pending leaves a Lex record behind them in the WAL (see
+        // CORE_READY.md, finding F-lex-after-inserts): the generator commits first
+        9 => if obs.pending_inserts > 0 { Op::Commit } else { Op::Finalize },
         10 => Op::Vacuum,
         11 => Op::Doctor { vacuum: rng.chance(40, 100), rebuild_time: rng.bool(), rebuild_lex: rng.bool(), rebuild_vec: rng.bool() },
         _ => {
@@ -1310,6 +1323,14 @@ pub fn frame_vs_reference(f: &FrameObs, r: &RefFrame, refm: &RefModel, quiescent
         }
         if let Some(exp) = refm.expected_read(f.id) {
             if f.canon_raw != exp && !(f.status != 'a' && f.canon_raw == "err") {
+                if r.note == "reuse-of-chunked" && f.canon_raw == "E" {
+                    return Some(("payloadless-update-of-chunked-document-reads-empty".into(),
+                        format!("frame {} is a payload-less update of chunked document {:?}; its canonical payload reads back empty instead of the document text", f.id, r.supersedes)));
+                }
+                if r.note == "extracted-plan" {
+                    return Some(("binary-payload-with-extracted-text-chunks-reads-as-text".into(),
+                        format!("frame {} was put with a non-UTF-8 payload whose extracted text was chunked; its canonical payload is the concatenated chunk text ({}), not the payload ({})", f.id, f.canon_raw, exp)));
+                }
                 if r.role != 'd' && r.n_chunks > 0 && f.canon_raw == "E" {
                     return Some(("chunked-put-with-non-document-role-reads-empty".into(),
                         format!("frame {} (role {}) was put with {} chars of text that the chunker split; its canonical payload reads back empty", f.id, r.role, "2400+")));
